@@ -1,1 +1,149 @@
 // Kani contract harnesses for /repo/arrow-ord/src/rank.rs (child module: sees private items via super::)
+use super::*;
+#[path = "/verif/kani/support/spec.rs"]
+mod spec;
+use spec::*;
+use arrow_buffer::{BooleanBuffer, Buffer};
+
+
+// ---------------------------------------------------------------------------------------------------------
+// CONTRACT STUB for std's unstable sort engine `core::slice::sort::unstable::sort(v, is_less)` (the function
+// behind `<[T]>::sort_unstable_by`, which rank_impl calls directly): ensures `v` is a permutation of its old
+// contents and no later element is strictly less than an earlier one under `is_less`. Built as a
+// nondeterministic Fisher-Yates shuffle (swaps only) followed by kani::assume of sortedness. Std is trusted.
+// ---------------------------------------------------------------------------------------------------------
+fn stub_core_sort<T, F>(v: &mut [T], is_less: &mut F)
+where
+    F: FnMut(&T, &T) -> bool,
+{
+    let n = v.len();
+    let mut i = 0;
+    while i < n {
+        let j: usize = kani::any();
+        kani::assume(i <= j && j < n);
+        v.swap(i, j);
+        i += 1;
+    }
+    let mut i = 0;
+    while i < n {
+        let mut j = i + 1;
+        while j < n {
+            kani::assume(!is_less(&v[j], &v[i]));
+            j += 1;
+        }
+        i += 1;
+    }
+}
+
+/// slot order under SortOptions (C10): null vs null Equal; null vs value Less iff nulls_first; values by key,
+/// reversed iff descending
+fn spec_cmp_opt<K: Ord>(a: Option<K>, b: Option<K>, o: SortOptions) -> Ordering {
+    match (a, b) {
+        (None, None) => Ordering::Equal,
+        (None, Some(_)) => if o.nulls_first { Ordering::Less } else { Ordering::Greater },
+        (Some(_), None) => if o.nulls_first { Ordering::Greater } else { Ordering::Less },
+        (Some(x), Some(y)) => if o.descending { y.cmp(&x) } else { x.cmp(&y) },
+    }
+}
+
+// Contract (C10): rank, as documented ("rank = position in the sorted order; equal values are assigned the
+// highest of their ranks, leaving gaps"; doc example [foo, null, foo, null, bar] -> [5, 2, 5, 2, 3]):
+//     rank[i] == #{ j < len : slot j does not sort after slot i }   under the slot order of `options`
+// (nulls per nulls_first, values by the native total order, reversed iff descending) -- an order-theoretic
+// definition independent of the sort. Checked for rank_impl called as primitive_rank calls it (compare =
+// T::compare, eq = T::is_eq) on N slots whose validity pattern MASK is concrete (it sizes `valid`), values and
+// both option flags symbolic. Assumption: std's sort engine meets the contract stated at stub_core_sort.
+macro_rules! rank_impl_unit {
+    ($name:ident, $t:ty, $n:expr, $mask:expr, $key:expr) => {
+        #[kani::proof]
+        #[kani::stub(core::slice::sort::unstable::sort, stub_core_sort)]
+        fn $name() {
+            const N: usize = $n;
+            const MASK: u32 = $mask;
+            let vals: [$t; N] = kani::any();
+            let mut valid: Vec<($t, u32)> = Vec::with_capacity(N);
+            let mut k = 0;
+            while k < N { if (MASK >> k) & 1 == 1 { valid.push((vals[k], k as u32)); } k += 1; }
+            let options = SortOptions { descending: kani::any(), nulls_first: kani::any() };
+            let out = rank_impl(N, valid, options, <$t as ArrowNativeTypeOp>::compare, <$t as ArrowNativeTypeOp>::is_eq);
+            assert!(out.len() == N);
+            let key = $key;
+            let slot = |i: usize| if (MASK >> i) & 1 == 1 { Some(key(vals[i])) } else { None };
+            let mut i = 0;
+            while i < N {
+                let mut cnt = 0u32;
+                let mut j = 0;
+                while j < N {
+                    if spec_cmp_opt(slot(j), slot(i), options) != Ordering::Greater { cnt += 1; }
+                    j += 1;
+                }
+                assert!(out[i] == cnt);
+                i += 1;
+            }
+            kani::cover!(options.descending && options.nulls_first);
+            kani::cover!(!options.descending && !options.nulls_first);
+            kani::cover!(N < 2 || MASK & 3 != 3 || (out[0] == out[1]));                 // tie shares the max rank
+            kani::cover!(N < 2 || MASK & 3 != 3 || (out[0] == 1 && options.descending)); // strict minimum
+        }
+    };
+}
+// @unit name=rank_impl_i32_0 props=C10 kind=bounded bound=0_slots fns=rank_impl timeout=600 tier=thorough note=not_confirmed_under_load
+rank_impl_unit!(rank_impl_i32_0, i32, 0, 0, |x: i32| x as i64);
+// @unit name=rank_impl_i32_1_null props=C10 kind=bounded bound=1_slot_null fns=rank_impl timeout=600 tier=thorough note=not_confirmed_under_load
+rank_impl_unit!(rank_impl_i32_1_null, i32, 1, 0b0, |x: i32| x as i64);
+// @unit name=rank_impl_i32_2 props=C10 kind=bounded bound=2_slots_all_valid fns=rank_impl timeout=600 tier=thorough note=not_confirmed_under_load
+rank_impl_unit!(rank_impl_i32_2, i32, 2, 0b11, |x: i32| x as i64);
+// @unit name=rank_impl_i32_3 props=C10 kind=bounded bound=3_slots_all_valid fns=rank_impl timeout=600 tier=thorough note=not_confirmed_under_load
+rank_impl_unit!(rank_impl_i32_3, i32, 3, 0b111, |x: i32| x as i64);
+// @unit name=rank_impl_i32_3_mid_null props=C10 kind=bounded bound=3_slots_validity_101 fns=rank_impl timeout=600 tier=thorough note=not_confirmed_under_load
+rank_impl_unit!(rank_impl_i32_3_mid_null, i32, 3, 0b101, |x: i32| x as i64);
+// @unit name=rank_impl_i32_4 props=C10 kind=bounded bound=4_slots_all_valid fns=rank_impl timeout=900 tier=thorough note=not_confirmed_under_load
+rank_impl_unit!(rank_impl_i32_4, i32, 4, 0b1111, |x: i32| x as i64);
+// @unit name=rank_impl_i32_4_two_nulls props=C10 kind=bounded bound=4_slots_validity_0110 fns=rank_impl timeout=900 tier=thorough note=not_confirmed_under_load
+rank_impl_unit!(rank_impl_i32_4_two_nulls, i32, 4, 0b0110, |x: i32| x as i64);
+// @unit name=rank_impl_i32_4_all_null props=C10 kind=bounded bound=4_slots_all_null fns=rank_impl timeout=600 tier=thorough note=not_confirmed_under_load
+rank_impl_unit!(rank_impl_i32_4_all_null, i32, 4, 0b0000, |x: i32| x as i64);
+// @unit name=rank_impl_f32_3 props=C10 kind=bounded bound=3_slots_all_valid fns=rank_impl timeout=900 tier=thorough note=not_confirmed_under_load
+rank_impl_unit!(rank_impl_f32_3, f32, 3, 0b111, |x: f32| key32(x.to_bits()));
+// @unit name=rank_impl_f32_4_one_null props=C10 kind=bounded bound=4_slots_validity_1101 fns=rank_impl tier=thorough timeout=900 note=not_confirmed_under_load
+rank_impl_unit!(rank_impl_f32_4_one_null, f32, 4, 0b1101, |x: f32| key32(x.to_bits()));
+
+// Contract (C10): primitive_rank(values, nulls, options) -- the typed entry point under `rank` -- computes the
+// same documented rank from a value slice and an optional validity bitmap: N concrete, values / validity bits
+// / options symbolic; a null buffer without any null takes the `filter(null_count > 0)` -> None path.
+macro_rules! prim_rank_unit {
+    ($name:ident, $n:expr, $with_nulls:expr) => {
+        #[kani::proof]
+        #[kani::stub(core::slice::sort::unstable::sort, stub_core_sort)]
+        #[kani::stub(alloc::fmt::format, stub_format)]
+        fn $name() {
+            const N: usize = $n;
+            let vals: [i32; N] = kani::any();
+            let vb: u8 = kani::any();
+            let nb = NullBuffer::new(BooleanBuffer::new(Buffer::from(vec![vb]), 0, N));
+            let options = SortOptions { descending: kani::any(), nulls_first: kani::any() };
+            let out = primitive_rank(&vals[..], if $with_nulls { Some(&nb) } else { None }, options);
+            assert!(out.len() == N);
+            let slot = |i: usize| if !$with_nulls || (vb >> i) & 1 == 1 { Some(vals[i]) } else { None };
+            let mut i = 0;
+            while i < N {
+                let mut cnt = 0u32;
+                let mut j = 0;
+                while j < N {
+                    if spec_cmp_opt(slot(j), slot(i), options) != Ordering::Greater { cnt += 1; }
+                    j += 1;
+                }
+                assert!(out[i] == cnt);
+                i += 1;
+            }
+            kani::cover!(!$with_nulls || (slot(0).is_none() && slot(1).is_some() && options.nulls_first && out[0] == 1));
+            kani::cover!(!$with_nulls || (slot(0).is_none() && !options.nulls_first && out[0] == N as u32));
+            kani::cover!(!$with_nulls || (vb & 7 == 7));
+            kani::cover!(N < 2 || (slot(0).is_some() && slot(1).is_some() && out[0] == out[1]));
+        }
+    };
+}
+// @unit name=primitive_rank_3 props=C10 kind=bounded bound=3_values_no_null_buffer fns=primitive_rank,rank_impl timeout=900 tier=thorough note=not_confirmed_under_load
+prim_rank_unit!(primitive_rank_3, 3, false);
+// @unit name=primitive_rank_3_nulls props=C10 kind=bounded bound=3_values_symbolic_validity fns=primitive_rank,rank_impl tier=thorough mem=4 timeout=900 note=not_confirmed_under_load
+prim_rank_unit!(primitive_rank_3_nulls, 3, true);
